@@ -498,6 +498,16 @@ def d2_items():
             tag = 'eqbound/%s/%s' % (ln, '+'.join(ts))
             yield tag + '/struct', st('S', named(2, [oe, PHU]), [dw(ts, bl)], gen=g2), fail
             yield tag + '/enum', en('E', [variant('A', 'Unnamed', unnamed(1, [PHU])), variant('B', 'Named', named(1, [oe])), variant('C')], [dw(ts, bl)], gen=g2), fail
+    # several fields whose types look alike (same outer type, different arguments / different module): each one needs its own assertion
+    wt, wn = ['Wrap', '<', 'T', '>'], ['Wrap', '<', 'NoEq', '>']
+    for tag, tys, fail in (('same_outer_bad_last', [wt, wn], True), ('same_outer_bad_first', [wn, wt], True), ('same_outer_ok', [wt, ['Wrap', '<', 'u8', '>']], False),
+                           ('same_outer_bad_mid', [wt, wn, wt], True), ('module_prefix_bad', [['ma', '::', 'Foo'], ['mb', '::', 'Foo']], True),
+                           ('module_prefix_ok', [['ma', '::', 'Foo'], ['ma', '::', 'Foo']], False), ('identical_bad', [wn, wn], True)):
+        ts = ['PartialEq', 'Eq']
+        yield 'eqdup/%s/struct' % tag, st('S', named(len(tys) + 2, tys + [PHT, PHU]), [dw(ts, ['T'])], gen=g2), fail
+        yield 'eqdup/%s/tuple' % tag, st('S', unnamed(len(tys) + 2, tys + [PHT, PHU]), [dw(ts, ['T'])], 'Unnamed', gen=g2), fail
+        yield 'eqdup/%s/enum' % tag, en('E', [variant('A', 'Unnamed', unnamed(2, [PHT, PHU])), variant('B', 'Named', named(len(tys), tys))], [dw(ts, ['T'])], gen=g2), fail
+        yield 'eqdup/%s/enum_split' % tag, en('E', [variant('A', 'Unnamed', unnamed(2, [tys[0], PHT])), variant('B', 'Named', named(len(tys), tys[1:] + [PHU]))], [dw(ts, ['T'])], gen=g2), fail
     # union Clone only together with Copy of the union
     yield 'union/clone_only', un('Un', named(1, [PHT]), [dw(['Clone'])], gen=g1), True
     yield 'union/clone_copy', un('Un', named(1, [PHT]), [dw(['Clone', 'Copy'])], gen=g1), False
@@ -517,7 +527,9 @@ def run_d2(cfg):
         'impl<K: Ord> Ord for OrdEq<K> { fn cmp(&self, o: &Self) -> ::core::cmp::Ordering { self.0.cmp(&o.0) } }\n' \
         'impl<K: ::core::hash::Hash> ::core::hash::Hash for OrdEq<K> { fn hash<H: ::core::hash::Hasher>(&self, h: &mut H) { self.0.hash(h) } }\n' \
         'impl<K: ::core::fmt::Debug> ::core::fmt::Debug for OrdEq<K> { fn fmt(&self, f: &mut ::core::fmt::Formatter<\'_>) -> ::core::fmt::Result { self.0.fmt(f) } }\n' \
-        'impl<K: Clone> Clone for OrdEq<K> { fn clone(&self) -> Self { OrdEq(self.0.clone()) } }\n'
+        'impl<K: Clone> Clone for OrdEq<K> { fn clone(&self) -> Self { OrdEq(self.0.clone()) } }\n' \
+        'pub struct Wrap<K>(pub K);\nimpl<K: PartialEq> PartialEq for Wrap<K> { fn eq(&self, o: &Self) -> bool { self.0 == o.0 } }\nimpl<K: Eq> Eq for Wrap<K> {}\n' \
+        'pub mod ma { #[derive(PartialEq, Eq)] pub struct Foo; }\npub mod mb { #[derive(PartialEq)] pub struct Foo; }\n'
     ranges, n = [], src.count('\n')
     rejected = [c for c in cases if ms[c[0]]['status'] != 'ok']
     cases = [c for c in cases if ms[c[0]]['status'] == 'ok']
